@@ -375,9 +375,13 @@ func (j *intJudge) judgeFromRat(r *big.Rat) {
 		bound := new(big.Rat).Abs(snapshot)
 		bound.Mul(bound, big.NewRat(2, 1))
 		bound.Quo(bound, new(big.Rat).SetInt(ref.Pow10(33)))
-		unit := new(big.Rat).SetFrac(ref.One, ref.Pow10(6176))
-		if bound.Cmp(unit) < 0 {
-			bound = unit
+		// Where the format's spacing (1e-6176 at the minimum exponent) exceeds that tolerance no Decimal can meet
+		// it: the best possible result is allowed for - the nearest Decimal (half a unit) under a nearest
+		// DefaultRoundingMode, either neighbour (one unit) under a directed one.
+		halfUnit := new(big.Rat).SetFrac(ref.One, new(big.Int).Mul(big.NewInt(2), ref.Pow10(6176)))
+		bound.Add(bound, halfUnit)
+		if def != ref.NearestEven && def != ref.NearestAway {
+			bound.Add(bound, halfUnit)
 		}
 		if diff.Cmp(bound) > 0 {
 			j.sh.Violate(mk(), "value", "within 2e-33 relative: "+lo.String(), g.String(), detail)
@@ -463,6 +467,44 @@ func genRat(r *gen.RNG) *big.Rat {
 			n.Mul(n, ref.Pow10(k))
 		} else {
 			d.Mul(d, ref.Pow10(k))
+		}
+	case 6: // result-driven: the quotient is m * 10^E with a chosen mantissa m next to a rounding boundary and E at
+		// a range end (subnormal band: 0.5, 0.5+, 0.58.., 0.99, 1.49, 1.5 units of 1e-6176; overflow: Cmax +/-)
+		var m *big.Rat
+		E := ref.MinExp
+		switch r.Intn(3) {
+		case 0: // around one half of the least subnormal and of the next few
+			base := int64(r.Pick(0, 0, 0, 1, 2, 9))
+			frac := r.Pick(4999, 5000, 5001, 5010, 5100, 5500, 5860, 5870, 5999, 9999, 1, 4000)
+			m = new(big.Rat).SetFrac(big.NewInt(base*10000+int64(frac)), big.NewInt(10000))
+			if r.Bool() {
+				// a long tail behind it
+				t := new(big.Rat).SetFrac(r.Digits(r.Range(1, 30)), ref.Pow10(r.Range(35, 60)))
+				m.Add(m, t)
+			}
+		case 1: // full-width mantissa in the subnormal band, some digits to be rounded off
+			k := r.Range(1, 33)
+			m = new(big.Rat).SetFrac(r.Digits(34), ref.Pow10(k))
+		default: // next to the largest finite value
+			E = ref.MaxExp
+			c := new(big.Int).Sub(ref.Cmax, big.NewInt(int64(r.Range(-3, 3))))
+			m = new(big.Rat).SetFrac(new(big.Int).Add(new(big.Int).Mul(c, big.NewInt(10)), big.NewInt(int64(r.Pick(0, 4, 5, 6)))), big.NewInt(10))
+		}
+		// m * 10^E as numerator/denominator, optionally multiplied through by a common odd factor
+		n = new(big.Int).Set(m.Num())
+		d = new(big.Int).Set(m.Denom())
+		if E < 0 {
+			d.Mul(d, ref.Pow10(-E))
+		} else {
+			n.Mul(n, ref.Pow10(E))
+		}
+		if r.Bool() {
+			f := big.NewInt(int64(r.Pick(3, 7, 9, 11, 1001)))
+			n.Mul(n, f)
+			d.Mul(d, f)
+		}
+		if n.Sign() == 0 {
+			n.SetInt64(1)
 		}
 	case 5: // huge bit lengths
 		n = r.BigBelow(new(big.Int).Lsh(ref.One, uint(r.Range(1, 20000))))
